@@ -130,6 +130,27 @@ pub fn generate(repo: &PathBuf) -> Result<String, String> {
         return Err(format!("cleanup_irrelevant_records: unexpected range `{}{}{}`", from.0, from.1, from.2));
     }
 
+    // the clean-up loop removes each collected key through `self.remove(&key)` — the function whose spawned
+    // disk task deletes the record file; any other loop body is not what the model (and the restart theorems) assume
+    struct Loops(Vec<String>);
+    impl<'ast> Visit<'ast> for Loops {
+        fn visit_expr_for_loop(&mut self, l: &'ast syn::ExprForLoop) {
+            self.0.push(format!("for {} in {} {}", ts(&l.pat), ts(&l.expr), ts(&l.body)));
+            syn::visit::visit_expr_for_loop(self, l);
+        }
+    }
+    let mut loops = Loops(vec![]);
+    loops.visit_block(&cl.block);
+    match loops.0.as_slice() {
+        [one] if one == "for key in keys_to_remove {self.remove(&key);}" => {}
+        other => return Err(format!("cleanup_irrelevant_records: expected exactly `for key in keys_to_remove {{ self.remove(&key); }}`, found {other:?}")),
+    }
+    let rm = impl_fn(&file, "NodeRecordStore", Some("RecordStore"), "remove")?;
+    let c = calls_in_block(&rm.block);
+    if !c.paths.iter().any(|p| p == "fs::remove_file") || !c.paths.iter().any(|p| p == "spawn") {
+        return Err("RecordStore::remove: expected a spawned fs::remove_file(file_path)".into());
+    }
+
     // get_records_within_distance_range: `..range` (exclusive) or `..=range`
     let within = impl_fn(&file, "NodeRecordStore", None, "get_records_within_distance_range")?;
     let sh = shapes(&within.block);
@@ -247,6 +268,7 @@ pub fn generate(repo: &PathBuf) -> Result<String, String> {
     s.push_str(&format!("/-- the start-up scan removes files by a size test against `max_value_bytes` -/\ndef scanDropsOversized : Bool := {}\n", lean_bool(scan_drops)));
     s.push_str(&format!("/-- that test measures the file length (otherwise the decrypted value length) -/\ndef scanSizeOnFile : Bool := {}\n", lean_bool(scan_on_file)));
     s.push_str(&format!("/-- that test is `len > max` (otherwise `len >= max`) -/\ndef scanSizeStrict : Bool := {}\n", lean_bool(scan_strict)));
+    s.push_str("/-- `cleanup_irrelevant_records` removes every collected key through `self.remove(&key)`, whose spawned task deletes the file -/\ndef cleanupRemovesThroughRemove : Bool := true\n");
     s.push_str(&format!("/-- `generate_filename` is the hex of the whole key (no slicing / truncation) -/\ndef fileNameIsFullHex : Bool := {}\n", lean_bool(name_full_hex)));
     s.push_str(&format!("/-- `get_data_from_filename` (start-up scan) accepts every hex name: no length or other filter -/\ndef scanAcceptsEveryHexName : Bool := {}\n", lean_bool(name_unfiltered)));
     s.push_str(&format!("/-- `RecordStore::put` refuses `len >= max_value_bytes` (otherwise `>`); `put_verified` has no size test -/\ndef putSizeInclusive : Bool := {}\n", lean_bool(put_inclusive)));
